@@ -68,17 +68,18 @@ Theorem initial_state_invariant : forall dg dgs, Inv (ledger0 dg dgs) (st_init d
 Proof. exact inv_init. Qed.
 
 (* ------------------------------------------------------------------------------------ *)
-(* Creating an object emits its creation command with the object's own id. *)
+(* Creating an object emits its creation command with the object's own id.  ([pv_maps_ok]: every bus.as_map() among the
+   arguments is of a bus that is still allocated; otherwise the caller's as_map() raises and the constructor is not called.) *)
 Theorem create_emits_own_id :
   (forall V s par nid tg act a, target_ok s tg = true -> action_number act = Some a ->
      obj_step V s (OGroup par nid tg act) =
      (add_node s (Some (mkNode (PInt nid) NGroup)),
       [SMsg [PStr (if par then "/p_new" else "/g_new"); PInt nid; PInt a; target_id s tg]], None)) /\
-  (forall V s nid def args tg act a, target_ok s tg = true -> action_number act = Some a ->
+  (forall V s nid def args tg act a, pv_maps_ok s args = true -> target_ok s tg = true -> action_number act = Some a ->
      obj_step V s (OSynth SInit nid def args tg act) =
      (add_node s (Some (mkNode (PInt nid) NSynth)),
       [SMsg (PStr "/s_new" :: PStr def :: PInt nid :: PInt a :: target_id s tg :: oal (v_dict_brackets V) s (args_or_empty args))], None)) /\
-  (forall V s nid def args tg act a, target_ok s tg = true -> action_number act = Some a ->
+  (forall V s nid def args tg act a, pv_maps_ok s args = true -> target_ok s tg = true -> action_number act = Some a ->
      obj_step V s (OSynth SPaused nid def args tg act) =
      (add_node s (Some (mkNode (PInt nid) NSynth)),
       [SBundle PNone [PStr "/s_new" :: PStr def :: PInt nid :: PInt a :: target_id s tg :: oal (v_dict_brackets V) s (args_or_empty args);
